@@ -23,7 +23,7 @@ EXPLANATION = (
     "is mutated by any function, and the ContextVar limiter is the only cross-call channel; (R5) who-may-copy: deepcopy is called only by the two "
     "documented helpers (signature defaults; explicit map_over clone), copy.copy only on a derivation's receiver, and bind() stores the caller's objects "
     "themselves; (R6) a mapping graph node leaves the inner graph's own bound values out of the inputs of the nested map, so per-item cloning can "
-    "never touch them. R6 is decided as a truth table of the executor's comprehension filter over 'key is bound in the inner graph' x 'value is that bound object': exactly the (bound, same object) case may be dropped."
+    "never touch them. R6 is decided as a truth table of the executor's comprehension filter over 'key is bound in the inner graph' x 'value is that bound object': exactly the (bound, same object) case may be dropped. R1 also requires that the DEFAULT (copied) class holds signature defaults only and that values bound on a nested graph have a BOUND path of their own; (R7) a DEFAULT-class value is never collected as a broadcast input of a mapping graph node; (R8) effects analysis: the run/map paths and the executors neither write nor mutate attributes of the runner/executor objects (no state survives a run on the runner; the user's cache backend excepted)."
 )
 NOT_DECIDED = "Equality of results across repeated/concurrent runs as such; behaviour of user objects that refuse deepcopy (reported as GraphConfigError by design)."
 
